@@ -275,7 +275,7 @@ class Program:
         """repo-relative 'file:line' of a span string"""
         parts = span.split(":")
         f = parts[0]
-        for pre in ("/repo/",):
+        for pre in ("/repo/", os.environ.get("ERBIUM_REPO", "/repo").rstrip("/") + "/"):
             if f.startswith(pre):
                 f = f[len(pre):]
         return "%s:%s" % (f, parts[1] if len(parts) > 1 else "?")
